@@ -120,6 +120,7 @@ class Property(Node):
     kind: str = "init"  # "init", "get", or "set"
     computed: bool = False
     shorthand: bool = False
+    method: bool = False  # {name() { }}
 
 
 @dataclass
